@@ -294,3 +294,11 @@ Theorem C10_preserve_bare_h_refuted :
     graph_to_smi_mol g [] <> Some ([], []) /\ graph_to_smi_mol g pres = Some ([], []).
 Proof. exact preserve_bare_h_refuted. Qed.
 Print Assumptions C10_preserve_bare_h_refuted.
+
+(** NXToGML.transform(attributes=[...]): with the default ["charge"] the generalised writer of the model is the writer the
+    round-trip theorems are about. *)
+Theorem C10_changed_attributes_default :
+  forall (Lg Rg Kg : gr) (reindex explicit_h : bool),
+    nx_to_gml_sel asel_charge Lg Rg Kg reindex explicit_h = nx_to_gml Lg Rg Kg reindex explicit_h.
+Proof. exact nx_to_gml_sel_charge. Qed.
+Print Assumptions C10_changed_attributes_default.
